@@ -59,7 +59,7 @@ def run(tier: str, seed: int, rep: Report, model: Model) -> dict:
                     rep.violation({"what": "BFloat16Tensor is exported without torch", "class": cls, **rec})
                 continue
             want = [x for x in (full["classes"][cls] or []) if (x.startswith("T:") and t2) or (x.startswith("N:") and n2)]
-            if toks != want:
+            if sorted(set(toks or [])) != sorted(set(want)):   # as sets: order and repetition inside DTYPES mean nothing
                 rep.violation({"what": "a class does not carry exactly the dtypes of the importable libraries", "class": cls, "got": toks, "expected": want, **rec})
         for lib, present in (("np", n2), ("torch", t2), ("jax", j2)):
             if present and p["works"].get(lib) != ["accept", "DLTypeShapeError"]:
